@@ -43,10 +43,22 @@ Section Hand.
         if andb (leb O inner_major_axis_radius inner_r_scaled_elliptical)
                 (leb O outer_r_scaled_elliptical outer_major_axis_radius) then false else true)
       (zrange (snd shape_native))) (zrange (fst shape_native)).
+  (* Mask2D.elliptical / elliptical_annular with the angles given by their (cos, sin) pairs: the generated class methods
+     (Gen_geometry.v, over R only) with the executable form of the util routine inside *)
+  Definition Mask2D_elliptical_cs (shape_native : Z * Z) (major_axis_radius axis_ratio : T) (cs pixel_scales origin centre : T * T)
+             (invert : bool) :=
+    Mask2D_new (mask_2d_elliptical_from_cs shape_native pixel_scales major_axis_radius axis_ratio cs centre) pixel_scales origin invert.
+  Definition Mask2D_elliptical_annular_cs (shape_native : Z * Z) (inner_major_axis_radius inner_axis_ratio : T) (inner_cs : T * T)
+             (outer_major_axis_radius outer_axis_ratio : T) (outer_cs pixel_scales origin centre : T * T) (invert : bool) :=
+    Mask2D_new (mask_2d_elliptical_annular_from_cs shape_native pixel_scales inner_major_axis_radius inner_axis_ratio inner_cs
+                                                   outer_major_axis_radius outer_axis_ratio outer_cs centre) pixel_scales origin invert.
 End Hand.
 
 Definition eqq (tol : Q) : Q -> Q -> bool := qtol tol.
 Definition lq2 (tol : Q) : list Q2 -> list Q2 -> bool := list_eqb (q2tol tol).
+
+Definition gobj_tol (tol : Q) (a b : gobj) : bool := lq2 tol (fst a) (fst b) && mobj_eqb (snd a) (snd b).
+Definition g1obj_tol (tol : Q) (a b : g1obj) : bool := list_eqb (qtol tol) (fst a) (fst b) && m1obj_eqb (snd a) (snd b).
 
 Definition agree (k : case) : bool :=
   match k with
@@ -61,6 +73,9 @@ Definition agree (k : case) : bool :=
   | KScaled2 sh s o p tol out => q2tol tol (@scaled_coordinates_2d_from QOps p sh s o) out
   | KExtent1 n s o tol out => q2tol tol (@Geometry1D_extent QOps n s o) out
   | KExtent2 sh s o tol out => q4tol tol (@Geometry2D_extent QOps sh s o) out
+  | KExtentGrid sh s o tol ext g =>
+      q4tol tol (@Geometry2D_extent QOps sh s o) ext &&
+      lq2 tol (@grid_2d_slim_via_mask_from QOps (repeat (repeat false (Z.to_nat (snd sh))) (Z.to_nat (fst sh))) s o) g
   | KGridPixels sh s o g tol out => lq2 tol (@grid_pixels_2d_slim_from QOps g sh s o) out
   | KGridCentres sh s o g out => lq2 0 (@grid_pixel_centres_2d_slim_from QOps g sh s o) out
   | KGridIndexes sh s o g out => list_eqb Qeq_bool (@grid_pixel_indexes_2d_slim_from QOps g sh s o) out
@@ -72,6 +87,35 @@ Definition agree (k : case) : bool :=
   | KAnti sh s ri ro ro2 c out => mask_eqb (@mask_2d_circular_anti_annular_from QOps sh s ri ro ro2 c) out
   | KEll sh s R q cs c out => mask_eqb (@mask_2d_elliptical_from_cs QOps sh s R q cs c) out
   | KEllAnn sh s Ri qi csi Ro qo cso c out => mask_eqb (@mask_2d_elliptical_annular_from_cs QOps sh s Ri qi csi Ro qo cso c) out
+  | KAllFalseC sh s o inv out => mobj_eqb (@Mask2D_all_false QOps sh s o inv) out
+  | KCircC sh r s o c inv out => mobj_eqb (@Mask2D_circular QOps sh r s o c inv) out
+  | KAnnC sh ri ro s o c inv out => mobj_eqb (@Mask2D_circular_annular QOps sh ri ro s o c inv) out
+  | KAntiC sh ri ro ro2 s o c inv out => mobj_eqb (@Mask2D_circular_anti_annular QOps sh ri ro ro2 s o c inv) out
+  | KEllC sh R q cs s o c inv out => mobj_eqb (@Mask2D_elliptical_cs QOps sh R q cs s o c inv) out
+  | KEllAnnC sh Ri qi csi Ro qo cso s o c inv out => mobj_eqb (@Mask2D_elliptical_annular_cs QOps sh Ri qi csi Ro qo cso s o c inv) out
+  | KGeoOf M out =>
+      let g := @Mask2D_geometry QOps M in
+      z2_eqb (fst (fst g)) (fst (fst out)) && q2eq (snd (fst g)) (snd (fst out)) && q2eq (snd g) (snd out)
+  | KGeoGrid which sh s o G tol out =>
+      if which =? 0 then gobj_tol tol (@Geometry2D_grid_pixels_2d_from QOps sh s o G) out
+      else if which =? 1 then gobj_tol 0 (@Geometry2D_grid_pixel_centres_2d_from QOps sh s o G) out
+      else gobj_tol tol (@Geometry2D_grid_scaled_2d_from QOps sh s o G) out
+  | KGeoIndexes sh s o G out =>
+      let r := @Geometry2D_grid_pixel_indexes_2d_from QOps sh s o G in
+      list_eqb Qeq_bool (fst r) (fst out) && mobj_eqb (snd r) (snd out)
+  | KSnap sh s o c tol out => q2tol tol (@Geometry2D_scaled_coordinate_2d_to_scaled_at_pixel_centre_from QOps sh s o c) out
+  | KUniformC sh s o tol out => gobj_tol tol (@Grid2D_uniform QOps sh s o) out
+  | KFromMaskC M tol out => gobj_tol tol (@Grid2D_from_mask QOps M) out
+  | KDeriveAllFalseC M tol out => gobj_tol tol (@DeriveGrid2D_all_false QOps M) out
+  | KDeriveUnmaskedC M tol out => gobj_tol tol (@DeriveGrid2D_unmasked QOps M) out
+  | KNative3 sh s o g out => list_eqb (lq2 0) (@grid_pixel_centres_2d_from QOps g sh s o) out
+  | KAllFalse1C n s o inv out => m1obj_eqb (@Mask1D_all_false QOps n s o inv) out
+  | KGeoOf1 M out =>
+      let g := @Mask1D_geometry QOps M in
+      Z.eqb (fst (fst g)) (fst (fst out)) && Qeq_bool (snd (fst g)) (snd (fst out)) && Qeq_bool (snd g) (snd out)
+  | KUniform1C n s o tol out => g1obj_tol tol (@Grid1D_uniform QOps n s o) out
+  | KFromMask1C M tol out => g1obj_tol tol (@Grid1D_from_mask QOps M) out
+  | KDeriveAllFalse1 M tol out => true       (* not modelled: the specification alone judges it (see props/C02.findings.json) *)
   end.
 
 Definition check (k : case) : nat := verdict (agree k) (spec_ok k).
